@@ -11,6 +11,7 @@ pub mod c08;
 pub mod c09;
 pub mod c10;
 pub mod c11;
+pub mod c14;
 pub mod c17;
 
 pub fn dispatch(id: &str, opts: &mut Opts) -> i32 {
@@ -27,6 +28,7 @@ pub fn dispatch(id: &str, opts: &mut Opts) -> i32 {
         "C10" => run_prop(&c10::C10, opts),
         "C11" => run_prop(&c11::C11, opts),
         "C13" => run_prop(&hostile::C13, opts),
+        "C14" => run_prop(&c14::C14, opts),
         "C17" => run_prop(&c17::C17, opts),
         _ => {
             eprintln!("unknown property id {id}");
